@@ -72,7 +72,15 @@ Print Assumptions C08_warm_output_machine.
     its record steps relabelled by +r, did not fail, holds the same particles (row, pid, liveness, values up to
     == on the rationals) and wrote the same records as [rest].
     The physics of the set-up includes LAND cells along the particle line ([s_land]): u-faces next to land
-    masked to zero, moves onto land cancelled, death outside the valid interval (stated in Props/C09.v). *)
+    masked to zero, moves onto land cancelled, death outside the valid interval (stated in Props/C09.v).
+    The ADVECTION SCHEME of the tracker is inside the set-up model ([s_adv]: EF, RK2 = midpoint, RK4 = classical,
+    with Forcing.velocity's fractional-step sampling u + f dU at f = 0, 1/2, 1/2, 1 and the masked-face
+    interpolation at every stage position): the theorem covers the three schemes — the
+    forcing module constructed afresh at the restart time interpolates to the same flow at every stage fraction of
+    every later step.  Well-formedness ([setup_ok])
+    includes [no_clip]: no frame moves a particle by more than 98/100 (RK2) / 49/100 (RK4) of a cell per step, so
+    that the clip of the stage positions in tracker.py — not modelled — is the identity ([C14_stages_never_clipped]
+    in Props/C14.v); set-ups with a faster flow under RK2 / RK4 are EXCLUDED. *)
 From Coq Require Import QArith.
 Open Scope Z_scope.
 From Ladim Require Import Model.Time Model.Setup Model.SetupWarm Proofs.SimRelProofs Proofs.SimShiftProofs Proofs.SetupProofs Proofs.SetupRestartProofs.
@@ -134,6 +142,30 @@ Example C08_closed_cont_ex :
   s_tk (warm_setup s r) = {| start := 1200; stop := 3600; dt := 600; ref := 0; rev := false |} /\
   map (fun x : rec pv => (rstep x, length (rrows x))) (recs restarted) = [(2, 5%nat)] /\
   show_run (relabel pv Z r restarted) = skipn 2 (show_run (m_run s)).
+Proof. vm_compute. repeat split. Qed.
+
+(** non-vacuity, RK2 / RK4: [ex_setup_rk2] (RK2) restarted after its record of step 2, and [ex_setup_land_rk4] (RK4,
+    land in cell 4: stage positions matter, non-dyadic positions) restarted after its record of step 1: the
+    restarted runs, relabelled, write the records of the uninterrupted runs *)
+Example C08_closed_rk_ex :
+  let s := ex_setup_rk2 in let r := 2 in
+  let step := sim_step pv Z (m_release s) (m_force s) s_cache (m_track s) (ibm s) (s_due s) in
+  let before := fold_left step (zrange 0 r) (sim_init pv Z) in
+  let rec_r := snapshot pv r (after_release pv Z (m_release s) (m_force s) before false r) in
+  let np := npid before + Z.of_nat (length (m_release s r)) in
+  let restarted := m_warm_run (warm_setup s r) (relabel_rec pv (- r) rec_r) np in
+  let s' := ex_setup_land_rk4 in let r' := 1 in
+  let step' := sim_step pv Z (m_release s') (m_force s') s_cache (m_track s') (ibm s') (s_due s') in
+  let before' := fold_left step' (zrange 0 r') (sim_init pv Z) in
+  let rec_r' := snapshot pv r' (after_release pv Z (m_release s') (m_force s') before' false r') in
+  let np' := npid before' + Z.of_nat (length (m_release s' r')) in
+  let restarted' := m_warm_run (warm_setup s' r') (relabel_rec pv (- r') rec_r') np' in
+  s_adv (warm_setup s r) = 1 /\ setup_ok s = true /\ dir_ok (s_tk s) = true /\ s_due s r = true /\ s_nsteps s = 6 /\
+  show_run restarted = [(2, [(0, 0, 3%Q, 4, 20%Q); (1, 1, (91 # 16)%Q, 2, 20%Q); (2, 1, (91 # 16)%Q, 2, 20%Q)])] /\
+  show_run (relabel pv Z r restarted) = skipn 2 (show_run (m_run s)) /\
+  s_adv (warm_setup s' r') = 2 /\ setup_ok s' = true /\ dir_ok (s_tk s') = true /\ s_due s' r' = true /\ s_nsteps s' = 6 /\
+  length (recs restarted') = 4%nat /\
+  show_run (relabel pv Z r' restarted') = skipn 2 (show_run (m_run s')).
 Proof. vm_compute. repeat split. Qed.
 
 (** non-vacuity: the executable instance used by the correspondence (Corr/SimInst.v) satisfies the
